@@ -8,7 +8,7 @@
 From Coq Require Import List Arith ZArith Bool.
 From Verif Require Import lib.Wire c15.Lts c15.Model c15.Spec c15.Proofs c15.Proofs_Chan c15.Proofs_Loc
   c15.Proofs_List c15.Proofs_Safe c15.Proofs_Init c15.Proofs_Once c15.Proofs_Thm c15.Proofs_Grow
-  c15.Proofs_First c15.Proofs_Wild c15.Proofs_Live c15.Proofs_Dead.
+  c15.Proofs_First c15.Proofs_Wild c15.Proofs_Live c15.Proofs_Dead c15.Proofs_Pend.
 Import ListNotations.
 
 (* the checked tie: a label trace accepted by conform_case's search is the
@@ -176,6 +176,25 @@ Print Assumptions c15_bus_lock_never_held.
 Theorem c15_try_drop_never_waits : forall st ty, exists st', try_drop st ty = Some st'.
 Proof. exact try_drop_total. Qed.
 Print Assumptions c15_try_drop_never_waits.
+
+(* the pending count (fix 8aeecd5): while a Subscribe call is between withNode's
+   lookup (under basicBus.lk) and its n.lk.Lock(), the node exists, its pending
+   count is positive and the bus map still maps the node's type to it - it cannot
+   be dropped in between.  (Initial states built by init_state satisfy the two
+   extra hypotheses: c15_init_state_fresh.) *)
+Theorem c15_node_not_dropped_before_lock : forall st sched s c i n, initial st ->
+  Forall (fun m => mnew m = 0) (emitters st) -> Forall (fun o => o = None) (bmap st) ->
+  nth_error (subs (run step st sched)) s = Some c -> spc c = SApp i n ->
+  exists nd, nth_error (nodes (run step st sched)) n = Some nd /\ npend nd > 0 /\
+             (nty nd < length (bmap (run step st sched)) -> nth_error (bmap (run step st sched)) (nty nd) = Some (Some n)).
+Proof. exact not_dropped_before_lock_l. Qed.
+Print Assumptions c15_node_not_dropped_before_lock.
+
+Theorem c15_init_state_fresh : forall nt ss ml es,
+  Forall (fun m => mnew m = 0) (emitters (init_state nt ss (map (fun p => new_emitter (fst p) (snd p)) ml) es)) /\
+  Forall (fun o => o = None) (bmap (init_state nt ss (map (fun p => new_emitter (fst p) (snd p)) ml) es)).
+Proof. exact init_state_fresh. Qed.
+Print Assumptions c15_init_state_fresh.
 
 (* the schedule that deadlocked the unrepaired bus (half-registered multi-type
    Subscribe + Emit stalled on it + third operation on the same type), continued:
